@@ -114,3 +114,54 @@ Example ex_xl_low_entropy :
   xl_protocol_isValidLowEntropyRotation 48 = true /\ xl_protocol_isValidLowEntropyRotation 50 = false /\
   xl_protocol_rotateLowEntropyMask 1 16 3 = 8 /\ xl_protocol_rotateLowEntropyMask 1 1 3 = 2 ^ 61.
 Proof. repeat split; reflexivity. Qed.
+
+(* ---------------------------------------------------------------- buildLowEntropyParams, lowEntropyEncodedPayloadLen
+   (error results are booleans in the translation, true = an error was returned; the parameter struct is a pair) *)
+
+Theorem xl_buildLowEntropyParams_eq_mode_params mode :
+  xl_protocol_buildLowEntropyParams mode =
+  match mode_params mode with Some (c, w) => ((c, w), false) | None => ((0, 0), true) end.
+Proof.
+  unfold mode_params.
+  destruct (Z.leb_spec 0 mode) as [H0|H0]; [destruct (Z.ltb_spec mode 8) as [H8|H8]|]; cbn [andb].
+  - assert (C : mode = 0 \/ mode = 1 \/ mode = 2 \/ mode = 3 \/ mode = 4 \/ mode = 5 \/ mode = 6 \/ mode = 7) by lia.
+    destruct C as [->|[->|[->|[->|[->|[->|[->| ->]]]]]]]; reflexivity.
+  - unfold xl_protocol_buildLowEntropyParams.
+    repeat match goal with |- context [mode =? ?k] => destruct (Z.eqb_spec mode k); [lia|] end. reflexivity.
+  - unfold xl_protocol_buildLowEntropyParams.
+    repeat match goal with |- context [mode =? ?k] => destruct (Z.eqb_spec mode k); [lia|] end. reflexivity.
+Qed.
+
+Lemma mode_params_range mode c w : mode_params mode = Some (c, w) -> 4 <= c <= 7.
+Proof.
+  unfold mode_params.
+  destruct (Z.leb_spec 0 mode) as [H0|H0]; [destruct (Z.ltb_spec mode 8) as [H8|H8]|]; cbn [andb]; try discriminate.
+  assert (C : mode = 0 \/ mode = 1 \/ mode = 2 \/ mode = 3 \/ mode = 4 \/ mode = 5 \/ mode = 6 \/ mode = 7) by lia.
+  destruct C as [->|[->|[->|[->|[->|[->|[->| ->]]]]]]]; cbn; intro E; inversion E; lia.
+Qed.
+
+Definition of_res (r : res Z) : Z * bool := match r with Ok v => (v, false) | Err _ => (0, true) end.
+
+Theorem xl_lowEntropyEncodedPayloadLen_eq_enc_len n mode : - 2 ^ 61 < n < 2 ^ 61 ->
+  xl_protocol_lowEntropyEncodedPayloadLen n mode = Some (of_res (enc_len n mode)).
+Proof.
+  intro Hn. assert (P61 : 2 ^ 61 = 2305843009213693952) by reflexivity. rewrite P61 in Hn.
+  unfold xl_protocol_lowEntropyEncodedPayloadLen, enc_len.
+  rewrite xl_buildLowEntropyParams_eq_mode_params.
+  destruct (mode_params mode) as [[c w]|] eqn:Em; [|reflexivity].
+  pose proof (mode_params_range _ _ _ Em) as Rc.
+  cbv beta iota zeta. cbn [Bool.eqb negb].
+  destruct (Z.leb_spec n 0) as [H0|H0]; [reflexivity|].
+  assert (E0 : (c =? 0) = false) by (apply Z.eqb_neq; lia). rewrite E0. cbn [negb].
+  rewrite go_quo_I64, go_rem_I64 by (rewrite ?pow63'; lia).
+  rewrite Z.quot_div_nonneg, Z.rem_mod_nonneg by lia.
+  assert (Q : 0 <= n / c <= n) by (split; [apply Z.div_pos; lia | apply Z.div_le_upper_bound; nia]).
+  rewrite if_negb.
+  assert (Ec : (if n mod c =? 0 then n / c else go_add (I 64) (n / c) 1) = nchunks n c).
+  { unfold nchunks. destruct (n mod c =? 0); [lia | apply go_add_I64; rewrite pow63'; lia]. }
+  rewrite Ec. assert (0 <= nchunks n c <= n + 1) by (unfold nchunks; destruct (n mod c =? 0); lia).
+  unfold C17_lowEntropyChunkLen. change (65535 / 8) with 8191. rewrite Z.gtb_ltb.
+  destruct (Z.ltb_spec 8191 (nchunks n c)) as [Hc|Hc]; [reflexivity|].
+  rewrite go_mul_I64 by (rewrite ?pow63'; lia).
+  unfold go_cast, go_wrap. rewrite wrapU_id by lia. reflexivity.
+Qed.
